@@ -140,6 +140,8 @@ class Verifier:
             except RecursionError:
                 res.undecided.append("recursion limit")
             except Exception as e:  # checker crash
+                if os.environ.get("PYVC_TRACE"):
+                    traceback.print_exc()
                 res.errors.append("checker crash: " + "".join(
                     traceback.format_exception_only(type(e), e)).strip()
                     + " @ " + traceback.format_exc().splitlines()[-3].strip())
@@ -221,7 +223,17 @@ class Verifier:
             env[gname] = I.fresh(gty, gname)
         for name, e in con.let.items():
             env[name] = I.eval_spec(e, env)
-        for e in list(con.requires) + list(self.extra_requires):
+        # `quick_requires`: configuration restrictions applied in the quick
+        # tier only, to bound the number of paths of functions with many
+        # independent option flags; the thorough tier proves the contract
+        # without them (reported in the evidence as an assumption of the
+        # quick run)
+        qr = list(con.extra.get("quick_requires", [])) \
+            if self.tier == "quick" else []
+        if qr:
+            self.stats.lib_used.add(
+                f"quick-tier restriction of {con.func}: " + "; ".join(qr))
+        for e in list(con.requires) + list(self.extra_requires) + qr:
             I.assume(bz(I.eval_spec(e, env)))
         for anchor, _callee, hexpr in con.hints:
             if anchor == "at_start":
